@@ -232,7 +232,9 @@ fn main() {
 def runner_source(ds, by_name, enums=(), builders=()):
     L = [RUNNER_HEAD]
     for d in enums:
+        L.append('// <<%s' % d['name'])
         L += enum_machine(d)
+        L.append('// >>%s' % d['name'])
     L.append('fn make_enum(name: &str) -> Option<Box<dyn EnumMachine>> {')
     L.append('    match name {')
     for d in enums:
@@ -241,7 +243,9 @@ def runner_source(ds, by_name, enums=(), builders=()):
     L.append('    }')
     L.append('}')
     for d in ds:
+        L.append('// <<%s' % d['name'])
         L += machine(d, by_name, d['name'] in builders)
+        L.append('// >>%s' % d['name'])
     L.append('fn make(name: &str) -> Option<Box<dyn Machine>> {')
     L.append('    match name {')
     for d in ds:
@@ -252,3 +256,15 @@ def runner_source(ds, by_name, enums=(), builders=()):
     L.append('}')
     L.append(RUNNER_MAIN)
     return '\n'.join(L)
+
+
+def owner_spans(text):
+    """{decl name: (first line, last line)} of the marked regions of a generated source"""
+    spans = {}
+    start = {}
+    for i, line in enumerate(text.split('\n'), 1):
+        if line.startswith('// <<'):
+            start[line[5:]] = i
+        elif line.startswith('// >>') and line[5:] in start:
+            spans[line[5:]] = (start[line[5:]], i)
+    return spans
